@@ -168,8 +168,17 @@ var c01HeadRe = regexp.MustCompile(`volume-head-\d+\.img`)
 func (x *c01Inst) state() string {
 	s := x.srv
 	r := s.Replica()
+	closed := ""
 	if r == nil {
-		return "closed " + x.files()
+		// closing and reopening reproduces chain and data: open what the calls left behind
+		closed = "closed; "
+		if err := s.Open(); err != nil {
+			return "closed, REOPEN FAILS: " + err.Error() + " " + x.files()
+		}
+		if err := s.SetReplicaMode("RW"); err != nil {
+			return "closed, reopened, setmode fails: " + err.Error()
+		}
+		r = s.Replica()
 	}
 	chain, err := r.Chain()
 	if err != nil {
@@ -184,8 +193,33 @@ func (x *c01Inst) state() string {
 		live = c01Tags(buf)
 	}
 	st, _ := s.Status()
-	return fmt.Sprintf("state=%s mode=%s size=%d rev=%d chain=%s live=[%s] %s", st, replica.VerifEdMode(r), size, r.GetRevisionCounter(),
-		c01HeadRe.ReplaceAllString(strings.Join(chain, ">"), "HEAD"), live, x.files())
+	mode := replica.VerifEdMode(r)
+	rev := r.GetRevisionCounter()
+	files := x.files()
+	// the whole volume accepts writes: probe the last block (the final act on this replica)
+	probe := "probe-write-last-block:skipped"
+	if mode == "RW" || mode == "WO" {
+		func() {
+			defer func() {
+				if p := recover(); p != nil {
+					probe = fmt.Sprintf("probe-write-last-block:PANIC %v", p)
+				}
+			}()
+			last := size - 4096
+			if _, err := s.WriteAt(c01Pat(0x7f, 4096), last); err != nil {
+				probe = "probe-write-last-block:err"
+				return
+			}
+			pb := make([]byte, 4096)
+			if _, err := s.ReadAt(pb, last); err != nil {
+				probe = "probe-write-last-block:read-err"
+				return
+			}
+			probe = "probe-write-last-block:" + c01Tags(pb)
+		}()
+	}
+	return fmt.Sprintf("%sstate=%s mode=%s size=%d rev=%d chain=%s live=[%s] %s %s", closed, st, mode, size, rev,
+		c01HeadRe.ReplaceAllString(strings.Join(chain, ">"), "HEAD"), live, files, probe)
 }
 
 func (x *c01Inst) files() string {
@@ -475,10 +509,20 @@ func c01Configs(part, tier string) []C01Cfg {
 		for _, p := range [][]string{{"Close", "W0"}, {"Close", "Wu"}, {"Close", "Close"}, {"Close", "SetRev"}, {"ModeWO", "W0"}, {"ModeWO", "Rm"}, {"ModeWO", "SetRev"}, {"Close", "Open"}, {"Close", "Revert"}, {"Close", "ModeWO"}} {
 			add(p...)
 		}
+	case "C16conc":
+		// growing the volume against everything else: afterwards the whole volume (probe write on the last block) works
+		for _, p := range [][]string{{"Resize", "W0"}, {"Resize", "W2"}, {"Resize", "R2"}, {"Resize", "ULM"}, {"Resize", "Reload"}, {"Resize", "Snap"}, {"Resize", "Rm"}, {"Resize", "Revert"},
+			{"Resize", "Close"}, {"Resize", "Resize"}} {
+			add(p...)
+		}
+		if tier == "thorough" {
+			add("Resize", "ULM", "W2")
+			add("Resize", "Snap", "W2")
+		}
 	case "C12conc":
 		// management operations against each other
 		for _, p := range [][]string{{"Snap", "Snap"}, {"Snap", "Resize"}, {"Rm", "Resize"}, {"Rm", "Reload"}, {"Rm", "Rm"}, {"Revert", "Resize"}, {"Revert", "Revert"},
-			{"Reload", "Resize"}, {"Close", "Snap"}, {"Close", "Rm"}, {"ModeWO", "Rm"}, {"ModeWO", "SetRev"}, {"Close", "Close"}, {"Snap", "SetRev"}} {
+			{"Reload", "Resize"}, {"ULM", "Resize"}, {"Close", "Snap"}, {"Close", "Rm"}, {"Close", "Revert"}, {"Close", "Reload"}, {"ModeWO", "Rm"}, {"ModeWO", "SetRev"}, {"Close", "Close"}, {"Snap", "SetRev"}} {
 			add(p...)
 		}
 		if tier == "thorough" {
@@ -493,3 +537,4 @@ func checkC01conc() int { return checkSimple("C01", "C01conc", "C01-conc.part") 
 func checkC06conc() int { return checkSimple("C06", "C06conc", "C06-conc.part") }
 func checkC12conc() int { return checkSimple("C12", "C12conc", "C12-conc.part") }
 func checkC17conc() int { return checkSimple("C17", "C17conc", "C17-conc.part") }
+func checkC16conc() int { return checkSimple("C16", "C16conc", "C16-conc.part") }
